@@ -51,6 +51,53 @@ def default_bools():
     return [k for k, v in DEFAULT_OPTS.items() if type(v["default"]) is bool]
 
 
+# ----------------------------------------------------------------------------- driver (native when it can be linked)
+def driver(chk, lines):
+    """
+    Drivers/C16.lean compiled to a native executable from the C files lake already produced (the interpreter
+    needs ~3 ms per request, the executable 0.5 ms); same source, same protocol.  Falls back to `lean --run`.
+    """
+    import hashlib
+    import subprocess
+    from harness import common
+    lean = common.LEAN
+    mods = ["IV/Model/Proto", "IV/Model/ClientVal", "IV/Gen/ClientConfig", "IV/Model/ClientLoad"]
+    cs = [os.path.join(lean, ".lake", "build", "ir", m + ".c") for m in mods]
+    src = os.path.join(lean, "Drivers", "C16.lean")
+    try:
+        h = hashlib.sha256()
+        for f in cs + [src]:
+            h.update(open(f, "rb").read())
+        bindir = os.path.join(lean, ".lake", "build", "bin")
+        exe = os.path.join(bindir, "c16driver-" + h.hexdigest()[:16])
+        if not os.path.exists(exe):
+            os.makedirs(bindir, exist_ok=True)
+            for old in os.listdir(bindir):
+                if old.startswith("c16driver-"):
+                    os.remove(os.path.join(bindir, old))
+            with common._Lock():
+                main_c = os.path.join(bindir, "C16_main.c")
+                rc, out = common._run(["lake", "env", "lean", "-c", main_c, os.path.join("Drivers", "C16.lean")])
+                if rc != 0:
+                    raise RuntimeError(out[-500:])
+                rc, out = common._run(["leanc", "-O1", "-o", exe + ".tmp", main_c] + cs, timeout=600)
+                if rc != 0:
+                    raise RuntimeError(out[-500:])
+                os.replace(exe + ".tmp", exe)
+        data = ("\n".join(lines) + "\n").encode("utf-8") if lines else b""
+        p = subprocess.run([exe], input=data, stdout=subprocess.PIPE, stderr=subprocess.STDOUT, timeout=1800)
+        ans = [l[1:] for l in p.stdout.decode("utf-8", "replace").split("\n") if l.startswith("@")]
+        if p.returncode != 0 or len(ans) != len(lines):
+            raise RuntimeError("native driver rc=%s, %d answers for %d lines" % (p.returncode, len(ans), len(lines)))
+        if chk is not None:
+            chk.extra["driver"] = "native executable linked from lake's C output of Drivers/C16.lean"
+        return ans
+    except (OSError, RuntimeError, subprocess.SubprocessError) as e:
+        if chk is not None:
+            chk.extra["driver"] = "lean --run (native link failed: %s)" % str(e)[:200]
+        return run_driver("C16", lines)
+
+
 # ----------------------------------------------------------------------------- canonical values
 def canon(v):
     if v is None:
@@ -123,16 +170,15 @@ class Scratch(object):
 
     def facts_for(self, paths):
         """file-system facts (platform, not model) about every path the code may ask about"""
-        todo, seen = list(paths), set()
-        while todo:
-            p = todo.pop()
-            if p in seen or not isinstance(p, str):
+        seen = set()
+        for p in paths:
+            if not isinstance(p, str):
                 continue
-            seen.add(p)
             a = os.path.abspath(p) if p else p
-            for q in [a] + [a + e for e in (".tar.gz", ".tar.xz", ".tar.bz2", ".tar")] + [os.path.dirname(p.rstrip("/")), os.path.dirname(a.rstrip("/"))]:
-                if q not in seen and len(seen) < 200:
-                    todo.append(q)
+            ext = [a + e for e in (".tar.gz", ".tar.xz", ".tar.bz2", ".tar")]
+            for q in [p, a] + ext:
+                seen.add(q)
+                seen.add(os.path.dirname(q.rstrip("/")))
         out = []
         for p in sorted(seen):
             if p not in self.facts:
@@ -539,12 +585,17 @@ def oracle(chk, scr, case, res, stream):
             continue
         if not same(d[k], exp[k]):
             chk.failure("option %s = %r, but command line > environment > file > default gives %r" % (k, d[k], exp[k]), cdesc, finding=fid)
-    # an implied option keeps its precedence value unless its documented trigger is present
-    if not (exp["offline"] or exp["output_dir"] or exp["output_file"]) and not same(d["no_upload"], exp["no_upload"]):
+    # an implied option keeps its precedence value (as a truth value: `x or offline` / `x and not offline` return an
+    # operand) unless its documented trigger is present
+    # (constructor keyword arguments went through the implications once already, at construction)
+    kw_trigger = stream == "load" and any(k in case["kw"] for k in ("offline", "output_dir", "output_file"))
+    if kw_trigger:
+        pass
+    elif not (exp["offline"] or exp["output_dir"] or exp["output_file"]) and bool(d["no_upload"]) != bool(exp["no_upload"]):
         chk.failure("no_upload = %r without offline/output, precedence gives %r" % (d["no_upload"], exp["no_upload"]), cdesc, finding=fid)
-    if not exp["offline"]:
+    if not exp["offline"] and not kw_trigger:
         for k in ("register", "auto_update"):
-            if not same(d[k], exp[k]):
+            if bool(d[k]) != bool(exp[k]):
                 chk.failure("%s = %r although not offline, precedence gives %r" % (k, d[k], exp[k]), cdesc, finding=fid)
     if not exp["no_gpg"] and not same(d["gpg"], exp["gpg"]):
         chk.failure("gpg = %r, precedence gives %r" % (d["gpg"], exp["gpg"]), cdesc, finding=fid)
@@ -613,7 +664,7 @@ def primitives(chk, scr):
     for c in cases:
         chk.case(("prim",) + c, True)
         chk.count("prim:" + c[0])
-    model = run_driver("C16", lines)
+    model = driver(chk, lines)
     chk.compare("primitives", cases, impl, model)
 
 
@@ -625,7 +676,7 @@ def run_stream(chk, scr, cases, op, name):
         results.append(res)
         chk.count("%s:outcome:%s" % (name, res[0]))
         oracle(chk, scr, c, res, "construct" if op == "construct" else "load")
-    model = run_driver("C16", lines)
+    model = driver(chk, lines)
     impl = [impl_line(r, m) for r, m in zip(results, model)]
     chk.compare(name, cases, impl, model, show=lambda c: case_for_replay(c, op))
     return results, model
@@ -671,7 +722,7 @@ def run(chk):
             chk.finding_reproduced("legacy-section-typed-option")
 
         # ---- 2. construct: exhaustive over the core booleans
-        nb = len(CORE_BOOLS) if quick else len(CORE_BOOLS)
+        nb = 13 if quick else len(CORE_BOOLS)
         cases = []
         for m in range(1 << nb):
             kw = {}
@@ -709,7 +760,7 @@ def run(chk):
             for fn in sorted(os.listdir(corpus_dir)):
                 if fn.endswith(".json"):
                     cases.append(json.load(open(os.path.join(corpus_dir, fn)))["case"])
-        n_load = 6000 if quick else 150000
+        n_load = 4000 if quick else 150000
         seen = set()
         for i in range(n_load):
             r = rng.random()
@@ -761,7 +812,7 @@ def replay(data):
         res = run_impl(scr, case, construct_only=(stream == "construct"))
         line = request(scr, case, "construct" if stream == "construct" else "load")
         try:
-            m = run_driver("C16", [line])[0]
+            m = driver(None, [line])[0]
         except Exception as e:      # the model is only shown for comparison
             m = "driver failed: %s" % e
         print("implementation:", res[0], (show_store(dict((k, v) for k, v in res[1].items() if not k.startswith("_"))) if res[0] == "OK" else res[1]))
